@@ -201,8 +201,11 @@ structure PState where
   assocPeer : List (String × Nat) := []               -- node id ↦ the peer it (last) associated from
   tookOver : List Nat := []                           -- sessions that have been taken over by another node id at some point
   repOf : List ((Nat × Nat) × Nat) := []              -- (peer, wire seq) of an outstanding report ↦ UP SEID of the reporting session
+  dark : List Nat := []     -- sessions that have belonged to the node whose address cannot be reached (4:p7): what was sent for them was seen by nobody
   umeth : List ((Nat × Nat) × (Bool × Bool × Bool)) := []   -- (UP SEID, URR id) ↦ (DURAT, VOLUM, MNOP) as the accepted Create / Update URR IEs say (C10)
 deriving Inhabited
+
+def listOf' (s : String) : List String := if s == "_" || s == "" then [] else splitOn1 s ';'
 
 def eventKind (toks : List String) : String := lookD (kvs toks) "kind" (toks.headD "")
 
@@ -474,7 +477,7 @@ def check (ps : PState) (evLine : String) (obs : List String) (fault : Option St
       for s in sends do
         if s.kind ∈ ["modrsp", "delrsp", "srreq"] then
           let up := if typ == "report" || (typ == "recv" && (kind == "mod" || kind == "del")) then seid else 0
-          if (prev.live up).isSome then
+          if (prev.live up).isSome && !ps.dark.contains up then
             for u in parseUsars (lookD s.f "usar" "_") do
               let want := ((tbl.find? (·.1 == (up, u.urr))).map (·.2)).getD 0
               if u.seqn != want then
@@ -649,7 +652,7 @@ def check (ps : PState) (evLine : String) (obs : List String) (fault : Option St
                   fs := fs ++ [s!"C19 the Usage Report Trigger octets of URR {u.urr}'s report in the {s.kind} of session {hexN seid} decode to flag word {u.trig}; " ++
                                s!"the data plane produced that report with {reprStr ((srcs.filter (·.urr == u.urr)).map (·.trig))} (only TERMR / IMMER may be added)"]
         -- a notification's reports for URRs the session knows are all delivered (none missing, none twice)
-        if typ == "report" then
+        if typ == "report" && !ps.dark.contains seid then
           for uid in (srcs.map (·.urr)).eraseDups do
             let want := if ds.urrs.any (·.id == uid) then (srcs.filter (·.urr == uid)).length else 0
             let got := ((sends.filter (·.kind == "srreq")).flatMap fun s => (parseUsars (lookD s.f "usar" "_")).filter (·.urr == uid)).length
@@ -732,6 +735,29 @@ def check (ps : PState) (evLine : String) (obs : List String) (fault : Option St
                   fs := fs ++ [s!"C13 the downlink-data notification of session {hexN seid} (node {n}) was raised towards p{s.peer}; the SMF that owns the session is at p{w}{sig}"]
     return fs
   let tookOver' := (if isTakeover then seid :: ps.tookOver else ps.tookOver).filter fun u => (d.live u).isSome
+  let dark' : List Nat := ((own'.filter (·.2 == "4:p7")).map (·.1) ++ ps.dark).eraseDups.filter fun u => (d.live u).isSome
+  -- C13 (external): a packet the data plane hands up for buffering (BUFF set, payload not empty) is held for its PDR — whether
+  -- or not the notification that goes with it can be delivered — until the queue is full (512)
+  let c13fails : List String := Id.run do
+    let mut fs : List String := []
+    if typ == "report" then
+      match prev.live seid, d.live seid with
+      | some ds0, some ds1 =>
+        -- (the data plane hands up one packet per notification; notifications carrying several downlink-data reports are left
+        --  to the lock-step comparison)
+        let items0 := (listOf' (lookD m "items" "_"))
+        let items := if (items0.filter (·.startsWith "d:")).length == 1 then items0 else []
+        let pdrs := (items.filterMap fun t => match splitOn1 t ':' with
+          | ["d", p, a, pk] => if hexD a / 4 % 2 == 1 && pk != "-" && pk != "" then some (natD p) else none
+          | _ => none)
+        for p in pdrs.eraseDups do
+          let n := (pdrs.filter (· == p)).length
+          let before := ((ds0.qs.find? (·.1 == p)).map (·.2)).getD 0
+          let after := ((ds1.qs.find? (·.1 == p)).map (·.2)).getD 0
+          if after != min 512 (before + n) then
+            fs := fs ++ [s!"C13 {n} packet(s) handed up for buffering for PDR {p} of session {hexN seid} (held before: {before}); held afterwards: {after} — each is due to be held until the queue is full, whether or not the notification could be delivered"]
+      | _, _ => pure ()
+    return fs
   -- C10, specification side: method / information of each URR, from the requests
   let umeth' : List ((Nat × Nat) × (Bool × Bool × Bool)) := Id.run do
     let mut t := ps.umeth
@@ -766,7 +792,7 @@ def check (ps : PState) (evLine : String) (obs : List String) (fault : Option St
     t := t.filter fun e => (d.live e.1.1).isSome
     return t
   let hadTakeover' := ps.hadTakeover || isTakeover
-  let fails := fails ++ c11fails ++ c12fails ++ c10fails ++ c10dest ++ c05fails
+  let fails := fails ++ c11fails ++ c12fails ++ c10fails ++ c10dest ++ c05fails ++ c13fails
   -- bookkeeping for the next event
   let cache' := if typ == "recv" && kind ∈ ["hb", "assoc", "est", "mod", "del", "other"] && !isDup then
       let rsp := (sends.filter fun s => s.kind != "srreq" && s.peer == peer).map (·.raw)
@@ -785,6 +811,6 @@ def check (ps : PState) (evLine : String) (obs : List String) (fault : Option St
   let outst0 := if typ == "recv" && (kind == "srrsp" || kind == "orsp") then ps.outst.filter (·.1 != (peer, seq)) else ps.outst
   let outst1 := if typ == "tmo" && lookD m "k" "" == "tx" && !(d.tx.any fun t => t.1 == s!"p{peer}-{seq}")
     then outst0.filter (·.1 != (peer, seq)) else outst0
-  ({ ps with prev := d, cache := cache', outst := outst1 ++ newReqs, nextSeqn := seq1, c12 := c12', own := own', hadTakeover := hadTakeover', taken := taken', assocPeer := assocPeer', repOf := repOf1, tookOver := tookOver', umeth := umeth' }, fails)
+  ({ ps with prev := d, cache := cache', outst := outst1 ++ newReqs, nextSeqn := seq1, c12 := c12', own := own', hadTakeover := hadTakeover', taken := taken', assocPeer := assocPeer', repOf := repOf1, tookOver := tookOver', umeth := umeth', dark := dark' }, fails)
 
 end UpfVerif.Driver.CtlProps
